@@ -267,13 +267,14 @@ func registerStdlib(m map[string]intrinsicFn) {
 		// contract: writes k <= len(out) bytes (k nondeterministic, >=1) such that Uncompress of exactly those bytes restores the input
 		src, dst := args[0].(SliceV), args[1].(SliceV)
 		in.codecSeq++
-		kmax := src.Len + 1
-		if kmax > dst.Len {
-			kmax = dst.Len
+		// deterministic output size (the codec's size behaviour is outside every claim): min(len(src), len(dst)), at least 1
+		k := src.Len
+		if k > dst.Len {
+			k = dst.Len
 		}
-		kv := in.tb.Var(fmt.Sprintf("lz4.outsize.%d", in.codecSeq), 64)
-		in.assume(in.tb.And(in.tb.Cmp(OpUle, in.tb.Const(64, 1), kv), in.tb.Cmp(OpUle, kv, in.tb.Const(64, uint64(kmax)))))
-		k := int(in.concretize(kv))
+		if k < 1 {
+			k = 1
+		}
 		tok := make([]*Term, k)
 		for i := 0; i < k; i++ {
 			tok[i] = in.tb.Var(fmt.Sprintf("lz4.enc.%d[%d]", in.codecSeq, i), 8)
